@@ -48,7 +48,7 @@ def analyse(events, info, parent, returned_normally):
                     st['release_without_acquire'] += 1
                 st['release'] += 1
             elif k == 'c':
-                rid, pid, i = int(e[1]), int(e[2]), int(e[3])
+                rid, pid, i = e[1], int(e[2]), int(e[3])
                 claims[rid].append((pid, i))
                 claimed_by[pid].add(i)
                 st['claim'] += 1
@@ -62,7 +62,7 @@ def analyse(events, info, parent, returned_normally):
                 lock_site[int(e[1])] = e[3]
                 st['lock_created/' + e[3]] += 1
             elif k == 'R':
-                ranges[int(e[1])] = dict(pid=int(e[2]), stop=int(e[3]), expected=int(e[4]))
+                ranges[e[1]] = dict(pid=int(e[2]), stop=int(e[3]), expected=int(e[4]))
                 st['range'] += 1
             elif k in ('vr', 'vw'):
                 held = e[3]
@@ -75,7 +75,7 @@ def analyse(events, info, parent, returned_normally):
                 faults.append(e[1:])
                 st['fault_injected'] += 1
             elif k == 'b':
-                barrier.append((int(e[1]), int(e[2]), int(e[3]), int(e[4]), int(e[5])))
+                barrier.append((e[1], int(e[2]), int(e[3]), int(e[4]), int(e[5])))
             elif k == 'V':
                 pass
         except (ValueError, IndexError):
